@@ -26,8 +26,9 @@ import (
 )
 
 type Proc struct {
-	Kind string `json:"kind"` // "lint", "trim", "clock"
-	D    int64  `json:"d,omitempty"`
+	Kind     string `json:"kind"` // "lint", "trim", "clock"
+	D        int64  `json:"d,omitempty"`
+	Patterns []int  `json:"patterns,omitempty"` // lint: nil means ./... ; else these packages (the others are analysed for facts only)
 }
 
 type Env struct {
@@ -81,18 +82,42 @@ func execute(c Case, tr *rec) batch.Result {
 			res.Violation = &batch.Violation{Class: class, Detail: fmt.Sprintf(f, a...)}
 		}
 	}
-	args := append([]string{"-f", "json"}, c.Flags...)
-	args = append(args, "./...")
-	inv := simlint.Inv{Args: args, Dir: dir}
+	invFor := func(patterns []int) simlint.Inv {
+		args := append([]string{"-f", "json"}, c.Flags...)
+		if patterns == nil {
+			args = append(args, "./...")
+		}
+		for _, p := range patterns {
+			args = append(args, fmt.Sprintf("./p%d", p%len(c.Mod.Pkgs)))
+		}
+		return simlint.Inv{Args: args, Dir: dir}
+	}
 	epoch := time.Unix(1_700_000_000, 0)
 	now := epoch
-	ref, _, rvr := simlint.RunOne(verifsim.Config{Strategy: verifsim.StratFIFO, Procs: 1, StepBound: 5_000_000, Epoch: now}, nil, inv)
-	if cl, d := simlint.Problems(rvr); cl != "" {
-		fail(cl, "reference run without cache history: %s", d)
-		return res
+	// references (no cache history), one per pattern list
+	refs := map[string]simlint.Out{}
+	var refErr *batch.Result
+	refFor := func(patterns []int) simlint.Out {
+		key := fmt.Sprint(patterns)
+		if r, ok := refs[key]; ok {
+			return r
+		}
+		ref, _, rvr := simlint.RunOne(verifsim.Config{Strategy: verifsim.StratFIFO, Procs: 1, StepBound: 5_000_000, Epoch: epoch}, nil, invFor(patterns))
+		if cl, d := simlint.Problems(rvr); cl != "" {
+			fail(cl, "reference run without cache history: %s", d)
+		}
+		if ref.Exit > 1 && refErr == nil {
+			refErr = &batch.Result{Infra: fmt.Sprintf("reference run failed: exit %d: %s", ref.Exit, ref.Stderr)}
+		}
+		refs[key] = ref
+		return ref
 	}
-	if ref.Exit > 1 {
-		return batch.Result{Infra: fmt.Sprintf("reference run failed: exit %d: %s", ref.Exit, ref.Stderr)}
+	refFor(nil)
+	if refErr != nil {
+		return *refErr
+	}
+	if res.Violation != nil {
+		return res
 	}
 	var disk *simos.FS
 	var digests []uint64
@@ -119,7 +144,7 @@ func execute(c Case, tr *rec) batch.Result {
 			for i, p := range ph.Procs {
 				switch p.Kind {
 				case "lint":
-					ps = append(ps, s.Start(fmt.Sprintf("lint%d", i), inv, &outs[i]))
+					ps = append(ps, s.Start(fmt.Sprintf("lint%d", i), invFor(p.Patterns), &outs[i]))
 				case "trim":
 					ps = append(ps, verifsim.Spawn(fmt.Sprintf("trim%d", i), func() {
 						if c, err := cache.Open(simlint.CacheRoot); err == nil {
@@ -180,6 +205,13 @@ func execute(c Case, tr *rec) batch.Result {
 				continue
 			}
 			res.Counters["lint_processes_completed"]++
+			if p.Patterns != nil {
+				res.Counters["lint_processes_with_facts_only_dependencies"]++
+			}
+			ref := refFor(p.Patterns)
+			if refErr != nil {
+				return *refErr
+			}
 			if !o.Same(ref) {
 				d := strings.ReplaceAll(simlint.Diff(ref, o), dir, "$DIR")
 				cl := "linter-output-through-cache-differs"
@@ -293,6 +325,13 @@ func (engine) Generate(seed uint64, index int, tier string) json.RawMessage {
 			p := Proc{Kind: k}
 			if k == "clock" {
 				p.D = clockJumps[r.N(len(clockJumps))]
+			}
+			if k == "lint" && r.P(400) {
+				// name only some packages: their dependencies are analysed for facts only
+				p.Patterns = []int{npkg - 1 - r.N((npkg+1)/2)}
+				if r.P(300) {
+					p.Patterns = append(p.Patterns, r.N(npkg))
+				}
 			}
 			ph.Procs = append(ph.Procs, p)
 			if k == "lint" && r.P(450) {
